@@ -13,6 +13,12 @@ treadmill/scheduler/master.py, read from the Python AST of the working tree (fai
      for app in current - correct: backend.delete(join(placement_node, app))    -> phase 1
      for app in correct - current: backend.put(join(placement_node, app), ...)  -> phase 2
                                                                       order -> c10_init_phases
+     one such loop with both inner loops (the tree before the repair) or two loops, the first deleting for ALL
+     servers before the second creates (flag 1); a further inner loop
+     for app in correct & current: if backend.get_default(app_node) != placement_data: backend.put(app_node, ...)
+     reconciles existing nodes by content (flag 2)                    -> c10_init_flags
+  Loader.check_placement_integrity (loader.py), branch `if app2server[app] != correct_placement:`
+     app2server[app] = correct_placement after the delete (flag 1)    -> c10_integrity_flags
 
 Master/Publish.v takes these lists as its configuration ([cfg_of_tables]); Props/C10.v and Props/C09.v have to
 re-establish `cfg_canonical c10_cfg = true` by vm_compute, so an edit that reorders the loops, merges them, drops
@@ -166,48 +172,123 @@ def reschedule_shape():
     return phases, filt
 
 
-def init_shape():
-    tree = ast.parse(tables._src(_SRC))
-    fn = tables._func(tree, 'init_schedule')
-    outer = [st for st in tables._body(fn) if isinstance(st, ast.For)]
-    if len(outer) != 1 or 'members' not in ast.dump(outer[0].iter):
-        _err('init_schedule: expected exactly one loop over self.cell.members().items()')
-    for st in tables._body(fn):
-        if st is not outer[0] and _backend_calls(st):
-            _err('init_schedule: backend call outside the per-server loop (line %d)' % st.lineno)
-    phases = []
-    for st in outer[0].body:
+_G_CONTENT = ast.dump(ast.parse('self.backend.get_default(app_node) != placement_data', mode='eval').body)
+
+
+def _inner_loops(outer, what):
+    """inner `for app in <set expr>` loops of one per-server loop -> list of (kind, call)"""
+    out = []
+    for st in outer.body:
         calls = _backend_calls(st)
         kinds = [k for k, _c in calls]
         if isinstance(st, ast.For):
             it = st.iter
-            if not (isinstance(it, ast.BinOp) and isinstance(it.op, ast.Sub)
+            if not (isinstance(it, ast.BinOp) and isinstance(it.op, (ast.Sub, ast.BitAnd))
                     and isinstance(it.left, ast.Name) and isinstance(it.right, ast.Name)):
-                _err('init_schedule: inner loop is not over a set difference (line %d)' % st.lineno)
-            diff = (it.left.id, it.right.id)
-            if diff == ('current', 'correct') and kinds == ['delete']:
-                phases.append(1)
-            elif diff == ('correct', 'current') and kinds == ['put']:
-                phases.append(2)
+                _err('%s: inner loop is not over a set expression of current/correct (line %d)' % (what, st.lineno))
+            expr = (it.left.id, type(it.op).__name__, it.right.id)
+            if expr == ('current', 'Sub', 'correct') and kinds == ['delete']:
+                if _guard_of(st, calls[0][1]) != []:
+                    _err('%s: the delete of a stale node is conditional' % what)
+                out.append('del')
+            elif expr == ('correct', 'Sub', 'current') and kinds == ['put']:
+                if _guard_of(st, calls[0][1]) != []:
+                    _err('%s: the creation of a missing node is conditional' % what)
+                out.append('put')
+            elif expr in (('correct', 'BitAnd', 'current'), ('current', 'BitAnd', 'correct')) \
+                    and kinds == ['get_default', 'put']:
+                if _guard_of(st, calls[1][1]) != [_G_CONTENT]:
+                    _err('%s: the rewrite of an existing node is not guarded by '
+                         '`self.backend.get_default(app_node) != placement_data`' % what)
+                put = calls[1][1]
+                if not (len(put.args) == 2 and isinstance(put.args[0], ast.Name) and put.args[0].id == 'app_node'
+                        and isinstance(put.args[1], ast.Name) and put.args[1].id == 'placement_data'):
+                    _err('%s: the rewrite does not put placement_data at app_node' % what)
+                out.append('content')
             else:
-                _err('init_schedule: inner loop over %s - %s with backend calls %r' % (diff[0], diff[1], kinds))
-            if _guard_of(st, calls[0][1]) != []:
-                _err('init_schedule: a write of the inner loops is conditional')
+                _err('%s: inner loop over %s %s %s with backend calls %r' % ((what,) + expr + (kinds,)))
         elif any(k in ('put', 'delete', 'update') for k in kinds):
-            _err('init_schedule: write outside the two inner loops (line %d)' % st.lineno)
-    return phases
+            _err('%s: write outside the inner loops (line %d)' % (what, st.lineno))
+    return out
+
+
+def init_shape():
+    """-> (phases, flags): phases 1 = delete stale, 2 = create missing (order of appearance);
+    flags 1 = every phase is a separate loop over ALL servers, 2 = existing nodes are reconciled by content."""
+    tree = ast.parse(tables._src(_SRC))
+    fn = tables._func(tree, 'init_schedule')
+    outer = [st for st in tables._body(fn) if isinstance(st, ast.For)]
+    for st in tables._body(fn):
+        if st not in outer and any(k in ('put', 'delete', 'update', 'ensure_exists') for k, _c in _backend_calls(st)):
+            _err('init_schedule: backend write outside the per-server loops (line %d)' % st.lineno)
+    if not outer or any('members' not in ast.dump(o.iter) for o in outer):
+        _err('init_schedule: expected loops over self.cell.members().items() only')
+    loops = [_inner_loops(o, 'init_schedule') for o in outer]
+    flags = []
+    if len(outer) == 1:
+        kinds = loops[0]
+    elif len(outer) == 2:
+        if loops[0] != ['del']:
+            _err('init_schedule: with two loops over the servers the first must only delete stale nodes, found %r'
+                 % (loops[0],))
+        kinds = loops[0] + loops[1]
+        flags.append(1)
+        ens = [k for k, _c in _backend_calls(outer[0]) if k == 'ensure_exists']
+        if len(ens) != 1 or any(k == 'ensure_exists' for k, _c in _backend_calls(outer[1])):
+            _err('init_schedule: ensure_exists is expected in the first loop only')
+    else:
+        _err('init_schedule: %d loops over the servers' % len(outer))
+    if 'content' in kinds:
+        if kinds[-1] != 'content' or kinds.count('content') != 1:
+            _err('init_schedule: unexpected position of the content reconciliation loop: %r' % (kinds,))
+        flags.append(2)
+        kinds = kinds[:-1]
+    phases = [{'del': 1, 'put': 2}[k] for k in kinds]
+    return phases, flags
+
+
+def integrity_shape():
+    """-> flags: 1 = app2server[app] = correct_placement after the first-seen entry has been removed"""
+    tree = ast.parse(tables._src('treadmill/scheduler/loader.py'))
+    fn = tables._func(tree, 'check_placement_integrity')
+    want = ast.dump(ast.parse('app2server[app] != correct_placement', mode='eval').body)
+    found = [n for n in ast.walk(fn) if isinstance(n, ast.If) and ast.dump(n.test) == want]
+    if len(found) != 1:
+        _err('check_placement_integrity: expected exactly one `if app2server[app] != correct_placement`, found %d'
+             % len(found))
+    body = found[0].body
+    dels = [i for i, st in enumerate(body) if [k for k, _c in _backend_calls(st)] == ['delete']]
+    if len(dels) != 1:
+        _err('check_placement_integrity: the repair branch does not delete exactly one node')
+    upd = ast.dump(ast.parse('app2server[app] = correct_placement').body[0])
+    flags = []
+    for st in body[dels[0] + 1:]:
+        if isinstance(st, ast.Assign):
+            if ast.dump(st) == upd:
+                flags = [1]
+            else:
+                _err('check_placement_integrity: unexpected assignment in the repair branch (line %d)' % st.lineno)
+    for st in body[:dels[0]]:
+        if isinstance(st, ast.Assign):
+            _err('check_placement_integrity: assignment before the delete in the repair branch (line %d)' % st.lineno)
+    return flags
 
 
 def _emit():
     phases, filt = reschedule_shape()
-    init_phases = init_shape()
+    init_phases, init_flags = init_shape()
+    integ_flags = integrity_shape()
     return ('(* scheduler/master.py: statement order of Master.reschedule / Master.init_schedule and the\n'
             '   changed_placement filter (AST-extracted; 1 = delete loop, 2 = put loop, 3 = _unschedule_evicted,\n'
-            '   4 = _save_placement; filter 1 = servers compared, 2 = expiries compared) *)\n'
+            '   4 = _save_placement; filter 1 = servers compared, 2 = expiries compared; init flags 1 = one loop over\n'
+            '   all servers per phase, 2 = existing nodes reconciled by content); scheduler/loader.py:\n'
+            '   check_placement_integrity flag 1 = app2server brought up to date after a repair *)\n'
             'Definition c10_reschedule_phases : list Z := %s.\n'
             'Definition c10_changed_filter : list Z := %s.\n'
             'Definition c10_init_phases : list Z := %s.\n'
-            % (G.zlist(phases), G.zlist(filt), G.zlist(init_phases)))
+            'Definition c10_init_flags : list Z := %s.\n'
+            'Definition c10_integrity_flags : list Z := %s.\n'
+            % (G.zlist(phases), G.zlist(filt), G.zlist(init_phases), G.zlist(init_flags), G.zlist(integ_flags)))
 
 
 tables.register('c10', _emit)
